@@ -210,6 +210,11 @@ def parse_ui(ui_xml):
             cur.pop()
         elif tag == "class" and path[-2:-1] == ["ui"]:
             info["cls"] = txt
+        elif tag in ("class", "extends", "header") and path[-2:-1] == ["customwidget"]:
+            info.setdefault("_cw", {})[tag] = txt
+        elif tag == "customwidget":
+            cw = info.pop("_cw", {})
+            info["custom"].append((cw.get("class"), cw.get("extends"), cw.get("header")))
         elif tag == "cstring" and len(cur) > 1:
             cur[-1].setdefault("cstrings", []).append(txt)
         path.pop()
